@@ -988,70 +988,32 @@ func sortedKeys(m map[string]int) []string {
 	return ks
 }
 
-// publish marks everything reachable from p (following pointers according to the allocation types of the blocks)
-// as published through an atomic pointer: any later store to it violates the copy-on-write / build-before-publish
-// discipline that makes lock-free readers safe.
+// publish marks the block p points to and, for a slice header, its backing array as published through an atomic
+// pointer: any later store to them violates the copy-on-write discipline. Completeness of the object graph behind
+// the published pointer is checked at publication time by the harness callback (onPublish).
 func (m *Machine) publish(p *Term, depth int) {
 	p = m.simp(p)
 	if !p.IsConst() || p.Val < nilPage {
 		return
 	}
-	m.publishAddr(p.Val, 0)
-}
-
-func (m *Machine) publishAddr(addr uint64, depth int) {
-	if addr < nilPage || depth > 64 {
+	b := m.heap.find(p.Val)
+	if b == nil || b.kind != bkData || b.published {
 		return
-	}
-	b := m.heap.find(addr)
-	if b == nil || b.kind != bkData || b.published || b.readonly || b.owner == "const" {
-		return
-	}
-	if b.owner == "pool" || b.owner == "global" {
-		return // pooled scratch and package-level variables are not part of the published object graph
 	}
 	b = m.wblock(b)
 	b.published = true
-	if b.typ == nil || b.hasSym(0, b.size) {
-		return
+	if b.size >= 8 && !b.hasSym(0, 8) {
+		w := m.rawLoad(b, 0, 8)
+		if w.IsConst() {
+			if t := m.heap.find(w.Val); t != nil && t.kind == bkData && t.base == w.Val && t.typ != nil && !t.published {
+				t = m.wblock(t)
+				t.published = true
+			}
+		}
 	}
-	es := m.sizeof(b.typ)
-	if es == 0 {
-		return
-	}
-	for i := 0; i*es+es <= b.size; i++ {
-		m.publishSlots(b, i*es, b.typ, depth)
-	}
-}
-
-// publishSlots follows the pointer slots of a value of type t stored at off in b.
-func (m *Machine) publishSlots(b *Block, off int, t types.Type, depth int) {
-	word := func(o int) uint64 {
-		if o+8 > b.size || b.hasSym(o, 8) {
-			return 0
-		}
-		return m.rawLoad(b, o, 8).Val
-	}
-	switch u := t.Underlying().(type) {
-	case *types.Pointer:
-		m.publishAddr(word(off), depth+1)
-	case *types.Slice:
-		m.publishAddr(word(off), depth+1)
-	case *types.Struct:
-		if n, ok := t.(*types.Named); ok && n.Obj().Pkg() != nil && n.Obj().Pkg().Path() != "github.com/cloudwego/frugal/internal/reflect" && n.Obj().Pkg().Path() != "github.com/cloudwego/frugal/internal/defs" {
-			return // foreign structs (sync.Pool, reflect.Value, ...) are managed by their own packages
-		}
-		offs := m.fieldOffsets(u)
-		for i := 0; i < u.NumFields(); i++ {
-			m.publishSlots(b, off+int(offs[i]), u.Field(i).Type(), depth)
-		}
-	case *types.Array:
-		es := m.sizeof(u.Elem())
-		if u.Len() > 64 {
-			return
-		}
-		for i := 0; i < int(u.Len()); i++ {
-			m.publishSlots(b, off+i*es, u.Elem(), depth)
-		}
+	if cb := m.P.onPublish; cb != nil && !m.inCallback {
+		m.inCallback = true
+		m.callFunction(cb, []Value{p}, nil)
+		m.inCallback = false
 	}
 }
